@@ -953,9 +953,9 @@ func init() {
 			depth    int
 			deadline time.Duration
 		}
-		plans := []plan{{"zero", 4, 30 * time.Second}, {"default", 4, 25 * time.Second}, {"huge", 4, 15 * time.Second}}
+		plans := []plan{{"default", 4, 35 * time.Second}, {"zero", 4, 35 * time.Second}, {"huge", 4, 20 * time.Second}}
 		if ev.Tier() == "thorough" {
-			plans = []plan{{"zero", 5, 7 * time.Minute}, {"default", 5, 5 * time.Minute}, {"huge", 6, 3 * time.Minute}}
+			plans = []plan{{"default", 5, 5 * time.Minute}, {"zero", 5, 6 * time.Minute}, {"huge", 6, 6 * time.Minute}}
 		}
 		filtered := ev.NewRun("C11", "model_checking")
 		exh := true
@@ -978,7 +978,7 @@ func init() {
 		}
 		run.Set("payout_blocks_checked", payouts)
 		run.Set("exhaustive", exh)
-		run.Set("bound", fmt.Sprintf("all histories up to depth %d/%d/%d over the alphabets of three fixtures: zero (participation fees 0; buy 1m/2m, plan with 201/month, upgrade, 5 payments CU 1/2/300/10^6 to 3 providers on 2 chains, 2 seeded CU values, 2 unstakes), default (default participation fees, contributor on one chain, two consumers subscribed in the same block; upgrade, 5 payments, seed 3e9, unstake), huge (month credit 10^21+7; seeds 1/2/3e9/2^63, payment, upgrade); block ops +1 block, next epoch, ->payout (run to the next CU-tracker timer), +1 day, +31 days; horizon 100 days", plans[0].depth, plans[1].depth, plans[2].depth))
+		run.Set("bound", fmt.Sprintf("all histories up to depth %d/%d/%d over the alphabets of three fixtures: zero (participation fees 0; buy 1m/2m, plan with 201/month, upgrade, 5 payments CU 1/2/300/10^6 to 3 providers on 2 chains, 2 seeded CU values, 2 unstakes), default (default participation fees, contributor on one chain, two consumers subscribed in the same block; upgrade, 5 payments, seed 3e9, unstake), huge (month credit 10^21+7; seeds 1/2/3e9/2^63, payment, upgrade); block ops +1 block, next epoch, ->payout (run to the next CU-tracker timer), +1 day, +31 days; horizon 100 days", plans[1].depth, plans[0].depth, plans[2].depth))
 		run.Assume("mock bank/account keeper of testutil/keeper; atomic txs emulated as in baseapp; begin/end blockers in app.go order; providers' bonus pools emptied so that monthly bonus rewards do not mix into the reward records; participation fees are split with the real rewards keeper function (C11 pins only the total share); tracked CU is read with the keeper's GetSubTrackedCuInfo before the block; SEED ops inject tracked CU with the exported keeper method AddTrackedCu (state no transaction can produce quickly)")
 	}})
 }
